@@ -29,6 +29,9 @@ def gen_cases(tier, seed):
         c["storage"] = ["plain", "plain", "strided", "transposed", "shared-base"][n % 5]
         c["single_req"] = (n // 3) % 4 if (c["form"] == "functional" and n % 3 == 2) else None
         out.append(c)
+        if c["op"] in ("sigmoid", "tanh", "selu", "softmax", "log_softmax", "bce_with_logits", "cross_entropy") and n % 3 == 1:
+            c3 = copy.deepcopy(c); c3["a"]["vclass"] = "huge"; c3["storage"] = "plain"      # saturating magnitudes (|x| up to 800)
+            out.append(c3)
         if c["op"] in KINK_OPS and n % 2 == 0:
             c2 = copy.deepcopy(c); c2["a"]["vclass"] = "withzeros"; c2["kink"] = True
             out.append(c2)
